@@ -128,15 +128,21 @@ func vlabel(s string) string {
 // ---------------------------------------------------------------------------
 
 func stub(name, version string, omitURL bool) string {
-	url := `"url":"https://example.invalid/` + name + `",`
+	url := `"url":"https://example.invalid/plugin",`
 	if omitURL {
 		url = ""
 	}
+	return script(name, version, "{\"name\":\""+name+"\",\"description\":\"verif C20 stub\",\"version\":\""+version+"\","+url+
+		"\"supportedContractVersions\":[\"1.0\"],\"capabilities\":[\"SIGNATURE_VERIFIER.TRUSTED_IDENTITY\"]}", 0)
+}
+
+// script is a plugin executable that answers get-plugin-metadata with the
+// given line and exit code. The answer must not contain a single quote.
+func script(name, version, answer string, exit int) string {
 	return "#!/bin/sh\n# verif C20 plugin stub name=" + name + " version=" + version + "\n" +
 		"if [ \"$1\" = get-plugin-metadata ]; then\n" +
-		"echo '{\"name\":\"" + name + "\",\"description\":\"verif C20 stub\",\"version\":\"" + version + "\"," + url +
-		"\"supportedContractVersions\":[\"1.0\"],\"capabilities\":[\"SIGNATURE_VERIFIER.TRUSTED_IDENTITY\"]}'\n" +
-		"exit 0\nfi\nexit 2\n"
+		"printf '%s\\n' '" + answer + "'\n" +
+		fmt.Sprintf("exit %d\nfi\nexit 2\n", exit)
 }
 
 const brokenScript = "#!/bin/sh\nexit 1\n"
@@ -159,7 +165,7 @@ type shape struct {
 	MetaOK bool // hand label: the candidate answers with valid metadata named foo (given a version with MetaOK)
 	Quick  bool
 	Family string // differential family: "exe" (base dir-exe) or "nonexec" (base dir-nonexec)
-	Sub    bool   // generated sub-directory shape: combined with the reduced version set only
+	Sub    bool   // generated shape (sub-directories, near-miss names, bad metadata): combined with the reduced version set only
 }
 
 const srcDirName = "pkg"
@@ -195,12 +201,6 @@ var shapes = []shape{
 	{"dir-two-nonexec", "dir", func(v string) []sfile {
 		return []sfile{{"notation-bar", 0o644, stub("bar", v, false)}, cand(0o644)(v)}
 	}, false, true, false, "", false},
-	{"dir-metadata-other-name", "dir", func(v string) []sfile {
-		return []sfile{{exeName, 0o755, stub("bar", v, false)}}
-	}, true, false, true, "", false},
-	{"file-metadata-missing-url", "file", func(v string) []sfile {
-		return []sfile{{exeName, 0o755, stub(pluginName, v, true)}}
-	}, true, false, true, "", false},
 	{"path-missing", "missing", func(v string) []sfile { return nil }, false, true, true, "", false},
 	{"file-not-notation-name", "file", func(v string) []sfile {
 		return []sfile{{"foo-plugin", 0o755, stub(pluginName, v, false)}}
@@ -208,6 +208,78 @@ var shapes = []shape{
 	{"dir-no-notation-name", "dir", func(v string) []sfile {
 		return []sfile{{"foo-plugin", 0o755, stub(pluginName, v, false)}}
 	}, false, true, false, "", false},
+}
+
+// Misnamed metadata: the executable is called notation-foo and answers with
+// valid metadata whose name is a near miss of "foo". Every member is misnamed
+// (hand label), so every installation must be refused with the tree unchanged.
+var nearMissNames = []struct {
+	tag, name string
+	quick     bool
+}{
+	{"other", "bar", true},
+	{"capitalised", "Foo", true},
+	{"upper", "FOO", true},
+	{"mixed-case", "fOo", false},
+	{"trailing-blank", "foo ", true},
+	{"leading-blank", " foo", false},
+	{"prefix", "fo", false},
+	{"suffix", "foobar", true},
+	{"file-name", "notation-foo", false},
+	{"dot-slash", "./foo", false},
+	{"cyrillic-o", "f\u043e\u043e", true}, // U+043E looks like o
+	{"fullwidth", "\uff46\uff4f\uff4f", false},
+	{"combining-mark", "foo\u0301", false},
+	{"empty", "", false},
+}
+
+// Invalid metadata: correctly named, one requirement of the metadata contract broken.
+var badMetadata = []struct {
+	tag   string
+	quick bool
+	body  func(v string) string
+}{
+	{"missing-url", true, func(v string) string { return stub(pluginName, v, true) }},
+	{"empty-description", false, func(v string) string {
+		return script(pluginName, v, `{"name":"foo","description":"","version":"`+v+`","url":"https://example.invalid/plugin","supportedContractVersions":["1.0"],"capabilities":["SIGNATURE_VERIFIER.TRUSTED_IDENTITY"]}`, 0)
+	}},
+	{"no-capabilities", false, func(v string) string {
+		return script(pluginName, v, `{"name":"foo","description":"verif C20 stub","version":"`+v+`","url":"https://example.invalid/plugin","supportedContractVersions":["1.0"],"capabilities":[]}`, 0)
+	}},
+	{"no-contract-versions", false, func(v string) string {
+		return script(pluginName, v, `{"name":"foo","description":"verif C20 stub","version":"`+v+`","url":"https://example.invalid/plugin","capabilities":["SIGNATURE_VERIFIER.TRUSTED_IDENTITY"]}`, 0)
+	}},
+	{"contract-version-2.0-only", true, func(v string) string {
+		return script(pluginName, v, `{"name":"foo","description":"verif C20 stub","version":"`+v+`","url":"https://example.invalid/plugin","supportedContractVersions":["2.0"],"capabilities":["SIGNATURE_VERIFIER.TRUSTED_IDENTITY"]}`, 0)
+	}},
+	{"not-json", false, func(v string) string { return script(pluginName, v, "foo "+v, 0) }},
+	{"truncated-json", false, func(v string) string {
+		return script(pluginName, v, `{"name":"foo","description":"verif C20 stub","version":"`+v+`","url":"https://example.invalid/plugin","supportedContractVersions":["1.0"],"capabilities":["SIGNATURE_VERIFIER.TRUSTED_IDENTITY"]`, 0)
+	}},
+	{"valid-answer-exit-1", true, func(v string) string {
+		return script(pluginName, v, `{"name":"foo","description":"verif C20 stub","version":"`+v+`","url":"https://example.invalid/plugin","supportedContractVersions":["1.0"],"capabilities":["SIGNATURE_VERIFIER.TRUSTED_IDENTITY"]}`, 1)
+	}},
+}
+
+func init() {
+	for _, n := range nearMissNames {
+		n := n
+		// as a directory source, and (case variants and blanks: what a lenient comparison forgives) as a file source
+		shapes = append(shapes, shape{"dir-metadata-name-" + n.tag, "dir", func(v string) []sfile {
+			return []sfile{{exeName, 0o755, stub(n.name, v, false)}}
+		}, true, false, n.quick, "", true})
+		if n.tag == "capitalised" || n.tag == "upper" || n.tag == "trailing-blank" {
+			shapes = append(shapes, shape{"file-metadata-name-" + n.tag, "file", func(v string) []sfile {
+				return []sfile{{exeName, 0o755, stub(n.name, v, false)}}
+			}, true, false, n.tag == "upper", "", true})
+		}
+	}
+	for _, b := range badMetadata {
+		b := b
+		shapes = append(shapes, shape{"file-metadata-" + b.tag, "file", func(v string) []sfile {
+			return []sfile{{exeName, 0o755, b.body(v)}}
+		}, true, false, b.quick, "", true})
+	}
 }
 
 // Sub-directory shapes: candidate {executable, non-executable} x extra files
@@ -1065,8 +1137,8 @@ func alphabet(thorough bool) (ops []op, vs []ver, shs []shape) {
 		for _, ow := range []bool{false, true} {
 			for _, s := range shs {
 				if s.Sub && !v.Quick {
-					// what a sub-directory does to an installation does not depend on the
-					// version: these shapes meet the six versions of the quick set only
+					// what a sub-directory, a misnamed or an invalid answer does to an installation
+					// does not depend on the version: these shapes meet the six versions of the quick set only
 					continue
 				}
 				ops = append(ops, op{"install", v.S, ow, s.Label})
@@ -1262,8 +1334,10 @@ func search(r *hx.Run) {
 			nsub++
 		}
 	}
-	r.Extra["source_shapes_with_generated_subdirectory"] = nsub
-	r.Extra["alphabet"] = "Install: (plain shapes x all versions + sub-directory shapes x the six quick versions) x overwrite; Uninstall(foo)"
+	r.Extra["source_shapes_generated"] = nsub
+	r.Extra["near_miss_metadata_names"] = len(nearMissNames)
+	r.Extra["invalid_metadata_variants"] = len(badMetadata)
+	r.Extra["alphabet"] = "Install: (plain shapes x all versions + generated shapes {sub-directories, near-miss metadata names, invalid metadata} x the six quick versions) x overwrite; Uninstall(foo)"
 	r.Extra["initial_states"] = len(inits)
 	r.Extra["worker_processes"] = nw
 	var byModel = map[string]int{}
